@@ -168,12 +168,16 @@ bool _vnacal_new_solve_is_trl(const vnacal_new_t *vnp,
 
 #define TRL_EQUATIONS	10
 #define TRL_UNKNOWNS	 7
+#define TRL_CANCEL	1.0e-5	/* smallest usable |x - y| / (|x| + |y|) */
 
 /*
  * _vnacal_new_solve_trl: solve when all s-parameters are known
  *   @vnssp: solve state structure
  *   @x_vector: vector of unknowns filled in by this function
  *   @x_length: length of x_vector
+ *
+ * Return 1 on success, 0 if the closed form is ill-conditioned at this
+ * frequency (nothing has been changed), -1 on error.
  */
 int _vnacal_new_solve_trl(vnacal_new_solve_state_t *vnssp,
 	const vnacal_new_trl_indices_t *vntip,
@@ -249,13 +253,34 @@ int _vnacal_new_solve_trl(vnacal_new_solve_state_t *vnssp,
      */
     {
 	double complex n, d;
+	double complex n1a, n1b, n2a, n2b, d1a, d1b, d2a, d2b;
 	double complex guess;
 	double d1, d2;
 
-	n = (ml21 * mt12 - l * ((mr11 - mt11) * (mt22 - ml22) + mt12 * mt21)) *
-	    (ml12 * mt21 - l * ((mr22 - mt22) * (mt11 - ml11) + mt12 * mt21));
-	d = (ml12 * (mr11 - mt11) - l * mt12 * (mr11 - ml11)) *
-	    (ml21 * (mr22 - mt22) - l * mt21 * (mr22 - ml22));
+	n1a = ml21 * mt12;
+	n1b = l * ((mr11 - mt11) * (mt22 - ml22) + mt12 * mt21);
+	n2a = ml12 * mt21;
+	n2b = l * ((mr22 - mt22) * (mt11 - ml11) + mt12 * mt21);
+	d1a = ml12 * (mr11 - mt11);
+	d1b = l * mt12 * (mr11 - ml11);
+	d2a = ml21 * (mr22 - mt22);
+	d2b = l * mt21 * (mr22 - ml22);
+
+	/*
+	 * Each of the four factors is proportional to the match error
+	 * of one of the two test ports.  When a port is (nearly)
+	 * perfectly matched, the quotient below is zero over zero and
+	 * rounding errors alone decide the result.  In that case, tell
+	 * the caller to use the general method for this frequency.
+	 */
+	if (cabs(n1a - n1b) < TRL_CANCEL * (cabs(n1a) + cabs(n1b)) ||
+	    cabs(n2a - n2b) < TRL_CANCEL * (cabs(n2a) + cabs(n2b)) ||
+	    cabs(d1a - d1b) < TRL_CANCEL * (cabs(d1a) + cabs(d1b)) ||
+	    cabs(d2a - d2b) < TRL_CANCEL * (cabs(d2a) + cabs(d2b))) {
+	    return 0;
+	}
+	n = (n1a - n1b) * (n2a - n2b);
+	d = (d1a - d1b) * (d2a - d2b);
 	if (d == 0.0) {
 	    _vnacal_error(vcp, VNAERR_MATH, "vnacal_new_solve: "
 		    "solution of unknown reflect parameter is singular");
